@@ -267,44 +267,45 @@ Proof.
     repeat split; auto. intros Hok. right. auto.
 Qed.
 
-Definition NrOk (nr : tier -> nat -> nat) (s : st) : Prop :=
-  (forall i, nr Cold i = nreps_st (cold s) i) /\ (forall i, nr Hot i = nreps_st (hot s) i).
+Definition nr_sh (shc shh : list nat) (t : tier) (i : nat) : nat :=
+  nth i (match t with Cold => shc | Hot => shh end) 0.
+Definition ShOk (shc shh : list nat) (s : st) : Prop := shape (cold s) = shc /\ shape (hot s) = shh.
 
 Definition SInv (pay : N) (s : st) (log : list visit) : Prop :=
   WInv pay Cold (cold s) log /\ WInv pay Hot (hot s) log /\ (cold_w s = true -> FullT (cold s)).
 
-Lemma nr_shape : forall (f : nat -> nat) ts ts',
-  (forall i, f i = nreps_st ts i) -> shape ts' = shape ts -> forall i, f i = nreps_st ts' i.
-Proof. intros. rewrite H. rewrite !nreps_st_shape. congruence. Qed.
-
-Lemma store_docs_spec : forall pay s s' vs ok prior nr,
+Lemma store_docs_spec : forall pay s s' vs ok prior shc shh,
   store_docs pay s = (s', vs, ok) ->
-  NrOk nr s -> SInv pay s prior ->
-  NrOk nr s' /\ SInv pay s' (prior ++ vs) /\ SkipsOk nr pay prior vs /\
+  ShOk shc shh s -> SInv pay s prior ->
+  ShOk shc shh s' /\ SInv pay s' (prior ++ vs) /\ SkipsOk (nr_sh shc shh) pay prior vs /\
   (ok = true -> cold_w s' = true /\ FullT (hot s')).
 Proof.
-  intros pay s s' vs ok prior nr H [NC NH] (IC & IH & IW). unfold store_docs in H.
+  intros pay s s' vs ok prior shc shh H [NC NH] (IC & IH & IW). unfold store_docs in H.
+  assert (NC' : forall i, nr_sh shc shh Cold i = nreps_st (cold s) i).
+  { intros. unfold nr_sh. rewrite nreps_st_shape. congruence. }
+  assert (NH' : forall i, nr_sh shc shh Hot i = nreps_st (hot s) i).
+  { intros. unfold nr_sh. rewrite nreps_st_shape. congruence. }
   destruct (cold_w s) eqn:CW.
   - destruct (send_tier Hot pay (hot_ord s) (hot s)) as [[[h' ho'] vs1] ok1] eqn:E.
     inversion H; subst.
-    destruct (send_tier_spec _ _ _ _ _ _ _ _ prior nr E NH IH) as (A & B & C & D).
-    split; [split; simpl; auto; eapply nr_shape; eauto|].
+    destruct (send_tier_spec _ _ _ _ _ _ _ _ prior _ E NH' IH) as (A & B & C & D).
+    split; [split; simpl; auto|].
     split; [split; [|split]; simpl; auto; apply WInv_app; auto|].
     split; auto.
   - destruct (send_tier Cold pay (cold_ord s) (cold s)) as [[[c' co'] vs1] ok1] eqn:E.
-    destruct (send_tier_spec _ _ _ _ _ _ _ _ prior nr E NC IC) as (A & B & C & D).
+    destruct (send_tier_spec _ _ _ _ _ _ _ _ prior _ E NC' IC) as (A & B & C & D).
     destruct ok1.
     + destruct (send_tier Hot pay (hot_ord s) (hot s)) as [[[h' ho'] vs2] ok2] eqn:E2.
       inversion H; subst.
       assert (IH' : WInv pay Hot (hot s) (prior ++ vs1)) by (apply WInv_app; auto).
-      destruct (send_tier_spec _ _ _ _ _ _ _ _ (prior ++ vs1) nr E2 NH IH') as (A2 & B2 & C2 & D2).
-      split; [split; simpl; eapply nr_shape; eauto|].
+      destruct (send_tier_spec _ _ _ _ _ _ _ _ (prior ++ vs1) _ E2 NH' IH') as (A2 & B2 & C2 & D2).
+      split; [split; simpl; congruence|].
       split; [split; [|split]; simpl; auto|].
       * rewrite app_assoc. apply WInv_app; auto.
       * rewrite app_assoc. auto.
       * split; [apply SkipsOk_app; auto|]. intros Hok. simpl. auto.
     + inversion H; subst.
-      split; [split; simpl; auto; eapply nr_shape; eauto|].
+      split; [split; simpl; congruence|].
       split; [split; [|split]; simpl; auto; try discriminate; apply WInv_app; auto|].
       split; auto. discriminate.
 Qed.
@@ -319,24 +320,24 @@ Lemma attempts_S : forall k pay s,
        end.
 Proof. reflexivity. Qed.
 
-Lemma attempts_spec : forall n pay s s' vs ok prior nr,
+Lemma attempts_spec : forall n pay s s' vs ok prior shc shh,
   attempts n pay s = (s', vs, ok) ->
-  NrOk nr s -> SInv pay s prior ->
-  NrOk nr s' /\ SInv pay s' (prior ++ vs) /\ SkipsOk nr pay prior vs /\
+  ShOk shc shh s -> SInv pay s prior ->
+  ShOk shc shh s' /\ SInv pay s' (prior ++ vs) /\ SkipsOk (nr_sh shc shh) pay prior vs /\
   (1 <= n -> ok = true -> cold_w s' = true /\ FullT (hot s')).
 Proof.
-  induction n as [|k IHk]; intros pay s s' vs ok prior nr H HN HI.
-  - simpl in H. inversion H; subst. rewrite app_nil_r. repeat split; simpl; auto; lia.
+  induction n as [|k IHk]; intros pay s s' vs ok prior shc shh H HN HI.
+  - simpl in H. inversion H; subst. rewrite app_nil_r. repeat split; simpl; auto; try apply HN; try apply HI; lia.
   - rewrite attempts_S in H.
     destruct (store_docs pay s) as [[s1 vs1] ok1] eqn:E.
-    destruct (store_docs_spec _ _ _ _ _ prior nr E HN HI) as (A & B & C & D).
+    destruct (store_docs_spec _ _ _ _ _ prior _ _ E HN HI) as (A & B & C & D).
     destruct ok1.
-    + inversion H; subst. repeat split; auto; apply D; auto.
+    + inversion H; subst. split; auto.
     + destruct k as [|k'].
-      * inversion H; subst. repeat split; auto; discriminate.
+      * inversion H; subst. repeat (split; auto); try (intros; discriminate).
       * destruct (attempts (S k') pay s1) as [[s2 vs2] ok2] eqn:E2.
         inversion H; subst.
-        destruct (IHk _ _ _ _ _ (prior ++ vs1) nr E2 A B) as (A2 & B2 & C2 & D2).
+        destruct (IHk _ _ _ _ _ (prior ++ vs1) _ _ E2 A B) as (A2 & B2 & C2 & D2).
         split; auto. split; [rewrite app_assoc; auto|].
         split; [apply SkipsOk_app; auto|].
         intros _ Hok. apply D2; auto. lia.
@@ -365,13 +366,17 @@ Proof.
   apply nth_error_map_inv in Hr as (sc & _ & <-). discriminate.
 Qed.
 
-Definition nr_of (cin hin : list shard_in) (t : tier) (s : nat) : nat := nreps (tin_of t cin hin) s.
+Definition shc_of (cin : list shard_in) := shape (map mk_shard cin).
 
 Lemma init_ok : forall pay cin hin cord hord,
-  NrOk (nr_of cin hin) (init_st cin hin cord hord) /\ SInv pay (init_st cin hin cord hord) [].
+  ShOk (shc_of cin) (shc_of hin) (init_st cin hin cord hord) /\ SInv pay (init_st cin hin cord hord) [].
 Proof.
-  intros. split; [split|split; [|split]]; simpl; intros;
-    try (unfold nr_of; simpl; symmetry; apply nreps_mk); try apply WInv_init; discriminate.
+  intros. split; [split; reflexivity|split; [|split]]; simpl; intros; try apply WInv_init; discriminate.
+Qed.
+
+Lemma nr_sh_of : forall cin hin t i, nr_sh (shc_of cin) (shc_of hin) t i = nreps (tin_of t cin hin) i.
+Proof.
+  intros. unfold nr_sh, shc_of. destruct t; simpl; rewrite <- nreps_st_shape; apply nreps_mk.
 Qed.
 
 (* ------------------------------------------------------------------ safety theorems *)
@@ -386,7 +391,7 @@ Lemma written_only_on_ok : forall tries pay cin hin cord hord s log ok,
 Proof.
   intros tries pay cin hin cord hord s log ok H.
   destruct (init_ok pay cin hin cord hord) as [HN HI].
-  destruct (attempts_spec _ _ _ _ _ _ [] _ H HN HI) as (A & (BC & BH & BW) & C & D).
+  destruct (attempts_spec _ _ _ _ _ _ [] _ _ H HN HI) as (A & (BC & BH & BW) & C & D).
   simpl in *. intros t sd rp sh r Hs Hr Hw. destruct t; [eapply BC|eapply BH]; eauto.
 Qed.
 
@@ -399,7 +404,7 @@ Lemma fail_reported : forall tries pay cin hin cord hord s log ok,
 Proof.
   intros tries pay cin hin cord hord s log ok Ht H Hno.
   destruct (init_ok pay cin hin cord hord) as [HN HI].
-  destruct (attempts_spec _ _ _ _ _ _ [] _ H HN HI) as (A & (BC & BH & BW) & C & D).
+  destruct (attempts_spec _ _ _ _ _ _ [] _ _ H HN HI) as (A & (BC & BH & BW) & C & D).
   destruct ok; auto. destruct (D Ht eq_refl) as [Hcw Hh].
   destruct Hno as [Hno|Hno]; exfalso; auto.
 Qed.
@@ -410,9 +415,9 @@ Definition AckT (pay : N) (t : tier) (tin : list shard_in) (log : list visit) : 
                           forall r, r < length (snd x) -> HasOk pay t s r log.
 
 Lemma FullT_AckT : forall pay t tin ts log,
-  shape ts = shape (map mk_shard tin) -> WInv pay t ts log -> FullT ts -> AckT pay t tin log.
+  shape ts = shc_of tin -> WInv pay t ts log -> FullT ts -> AckT pay t tin log.
 Proof.
-  intros pay t tin ts log Hsh Hinv [->|(i & sh & Hn & Hw)].
+  unfold shc_of. intros pay t tin ts log Hsh Hinv [->|(i & sh & Hn & Hw)].
   - destruct tin; [left; auto|discriminate].
   - right.
     assert (Hl : nreps_st ts i = nreps tin i).
@@ -423,28 +428,31 @@ Proof.
       destruct (nth_error (s_reps sh) r) as [rp|] eqn:Er.
       * eapply Hinv; eauto. eapply all_written_nth; eauto.
       * apply nth_error_None in Er. lia.
-    + (* the shard exists in the state but not in the input: impossible, shapes agree *)
-      exfalso. assert (length ts = length (map mk_shard tin)).
+    + exfalso. assert (length ts = length (map mk_shard tin)).
       { unfold shape in Hsh. apply (f_equal (@length nat)) in Hsh. rewrite !map_length in Hsh.
         rewrite map_length. exact Hsh. }
       rewrite map_length in H. apply nth_error_None in Ex.
       assert (i < length ts) by (apply nth_error_Some; congruence). lia.
 Qed.
 
-Lemma attempts_shape : forall n pay s s' vs ok,
-  attempts n pay s = (s', vs, ok) -> shape (cold s') = shape (cold s) /\ shape (hot s') = shape (hot s).
+Lemma ack_sound : forall tries pay cin hin cord hord s log,
+  1 <= tries ->
+  store_documents tries pay cin hin cord hord = (s, log, true) ->
+  AckT pay Cold cin log /\ AckT pay Hot hin log.
 Proof.
-  intros n pay s s' vs ok H.
-  set (nr := fun t i => match t with Cold => nreps_st (cold s) i | Hot => nreps_st (hot s) i end).
-  (* shapes are compared through nreps_st and lengths; easier: re-run the induction *)
-  revert s s' vs ok H nr. induction n as [|k IHk]; intros s s' vs ok H nr.
-  - simpl in H. inversion H; subst; auto.
-  - rewrite attempts_S in H. destruct (store_docs pay s) as [[s1 vs1] ok1] eqn:E.
-    assert (S1 : shape (cold s1) = shape (cold s) /\ shape (hot s1) = shape (hot s)).
-    { clear H IHk. unfold store_docs in E.
-      assert (G : forall t ords ts ts' ords' vs0 ok0,
-                 send_tier t pay ords ts = (ts', ords', vs0, ok0) -> shape ts' = shape ts).
-      { intros t ords ts ts' ords' vs0 ok0 H0.
-        eapply (send_tier_spec t pay ords ts ts' ords' vs0 ok0 [] (fun _ => nreps_st ts)); eauto.
-        intros s0 sh r rp _ _ _. (* WInv not needed for the shape: use the trivial log trick *)
-        Fail idtac "unreachable". Abort.
+  intros tries pay cin hin cord hord s log Ht H.
+  destruct (init_ok pay cin hin cord hord) as [HN HI].
+  destruct (attempts_spec _ _ _ _ _ _ [] _ _ H HN HI) as ([SC SH] & (BC & BH & BW) & C & D).
+  destruct (D Ht eq_refl) as [Hcw Hh]. simpl in *.
+  split; eapply FullT_AckT; eauto.
+Qed.
+
+(* every visit of the model's log leaves out only replicas with an earlier successful call *)
+Lemma skips_sound : forall tries pay cin hin cord hord s log ok,
+  store_documents tries pay cin hin cord hord = (s, log, ok) ->
+  SkipsOk (nr_sh (shc_of cin) (shc_of hin)) pay [] log.
+Proof.
+  intros tries pay cin hin cord hord s log ok H.
+  destruct (init_ok pay cin hin cord hord) as [HN HI].
+  destruct (attempts_spec _ _ _ _ _ _ [] _ _ H HN HI) as (A & B & C & D). exact C.
+Qed.
